@@ -406,6 +406,44 @@ def m2_rules(run):
                                 return False
                             if all(after_some(b_) for b_, _ in sets_true):
                                 okp = okc = True
+        if not (okp and okc):
+            # any in-function spelling (flag, labelled continue, early exit of the inner loop), decided on the CFG of the sweep:
+            #  (1) after a successful merge the item is not pushed before the next item is taken,
+            #  (2) an item is never dropped: from taking it, the next item is reached only through a successful merge or the push,
+            #  (3) a failed merge goes on to the next group: it reaches the push only through the inner iterator
+            spb = prog.bodies[sp]
+            g_ = prog.cfg(sp)
+            ex_ = Expr(prog, sp)
+            nexts = [(bid, t) for bid, t in prog.calls(sp) if re.search(r"Iterator>?::next$", Program.callee_name(t))]
+            merges = [(bid, t) for bid, t in prog.calls(sp) if Program.callee_name(t).endswith("Merge::merge") or ">::merge" in Program.callee_name(t)]
+            if len(nexts) == 2 and len(merges) == 1 and len(push) == 1:
+                # outer = the iterator over the items (its item is the pushed value), inner = over the groups
+                pushed = strip(ex_.operand(push[0][1]["args"][1]))
+                outer = [x for x in nexts if mentions(pushed, lambda z: z[0] == "call" and len(z) > 3 and z[3] == x[0] and re.search(r"Iterator>?::next$", z[1]))]
+                inner = [x for x in nexts if x not in outer]
+                sws = [(bid, blk["term"]) for bid, blk in enumerate(spb["blocks"]) if blk["term"]["k"] == "switch" and
+                       (lambda c: c[0] == "discr" and strip(c[1])[0] == "call" and len(strip(c[1])) > 3 and strip(c[1])[3] == merges[0][0])(strip(ex_.operand(blk["term"]["on"])))]
+                osw = [(bid, blk["term"]) for bid, blk in enumerate(spb["blocks"]) if blk["term"]["k"] == "switch" and outer and
+                       (lambda c: c[0] == "discr" and strip(c[1])[0] == "call" and len(strip(c[1])) > 3 and strip(c[1])[3] == outer[0][0])(strip(ex_.operand(blk["term"]["on"])))]
+                if len(outer) == 1 and len(inner) == 1 and len(sws) == 1 and len(osw) == 1:
+                    H, I, P = outer[0][0], inner[0][0], push[0][0]
+                    t_ = sws[0][1]
+                    edge = lambda sw_, val: ([tg for v_, tg in zip(sw_["values"], sw_["targets"]) if v_ == val] or [sw_["targets"][-1]])
+                    some_edge, none_edge = edge(t_, 1), edge(t_, 0)
+                    ot = osw[0][1]
+                    item_edge = edge(ot, 1)
+                    if some_edge == none_edge:
+                        none_edge = []
+                    if some_edge and none_edge and item_edge:
+                        S, N, E = some_edge[0], none_edge[0], item_edge[0]
+                        c1 = P not in g_.reachable_from(S, removed={H})
+                        c2 = H not in g_.reachable_from(E, removed={S, P})
+                        c3 = P not in g_.reachable_from(N, removed={I}) and H not in g_.reachable_from(N, removed={I})
+                        # the merged value replaces the group it was merged into
+                        recv = strip(ex_.operand(merges[0][1]["args"][0]))
+                        repl = mentions(recv, lambda z: z[0] == "call" and len(z) > 3 and z[3] == I)
+                        if c1 and c2 and c3 and repl:
+                            okp = okc = True
         if okp and okc:
             run.ok("C09.M2", "second_pass_merge pushes an item only when it merged with no existing group", where(prog.bodies[sp]))
         else:
